@@ -465,9 +465,12 @@ func (s *Sim) makeCloner(kind int) inprocgrpc.Cloner {
 				}
 				return anyUnmarshal(b, out)
 			}
-			o := out.(proto.Message)
+			o, i := out.(proto.Message), in.(proto.Message)
+			if o.ProtoReflect().Descriptor().FullName() != i.ProtoReflect().Descriptor().FullName() {
+				return fmt.Errorf("cannot copy %s into %s", i.ProtoReflect().Descriptor().FullName(), o.ProtoReflect().Descriptor().FullName())
+			}
 			proto.Reset(o)
-			proto.Merge(o, in.(proto.Message))
+			proto.Merge(o, i)
 			return nil
 		})
 	}
